@@ -12,8 +12,10 @@ def M(n, d, tier="quick", **kw): return H("c08_modules::" + n, desc=d, tier=tier
 HARNESSES = [
     M("c08_write_unnamed_not_listed", "mappings::write: an unnamed mapping is not listed"), M("c08_write_zero_id_not_listed", "an all-zero build id is not listed"),
     M("c08_write_listed_with_soname", "a named mapping with a build id is listed once: base, size, id, SONAME passed on"), M("c08_write_user_only", "caller-supplied mapping: verbatim, supplied id"),
-    M("c08_write_target_then_user", "target modules first, then caller-supplied ones, in order"), M("c08_write_zero_id_and_user", "zero-id target skipped, caller-supplied listed"),
+    M("c08_write_target_then_user", "target modules first, then caller-supplied ones, in order (> 20 min)", "thorough", timeout=3400, est_gb=14, mem_gb=30), M("c08_write_zero_id_and_user", "zero-id target skipped, caller-supplied listed"),
     M("c08_write_suppressed", "a target mapping wholly inside a caller-supplied one is suppressed (equal end addresses), not even read"),
+    M("c08_entry_point_module_first", "enumerate_mappings: the mapping containing AT_ENTRY is moved to the front, nothing lost (maps parsing and aggregation scripted)"),
+    M("c02_so_version_ascii_separator","probe","thorough",timeout=1500,est_gb=10,mem_gb=20), M("c02_so_version_2byte_separator","probe","thorough",timeout=1500,est_gb=10,mem_gb=20),
     M("c08_write_listed_no_soname", "unreadable SONAME: listed without it", "thorough", timeout=3000, est_gb=14, mem_gb=30),
     M("c08_is_interesting", "is_interesting predicate"), M("c08_is_contained_in", "is_contained_in predicate"),
     M("c08_raw_module_replace_basename", "module record, basename replaced by SONAME (string handling: > 15 min)", "thorough", est_gb=10, mem_gb=30), M("c08_raw_module_append_soname", "module record, SONAME appended", "thorough", est_gb=10, mem_gb=30),
